@@ -2,11 +2,29 @@ import vflib
 WRAPS = ("psGetEntropy", "gettimeofday", "time", "clock_gettime")
 def run(ctx):
     st = [dict(variant="asan", name="c01", sources=["checks/c01_appdata.c", "harness/mx_wraps.c"], wraps=WRAPS, libs=["-lcrypto"],
-               shards=vflib.NCPU, timeout=7200 if ctx.thorough else 1200)]
-    rule = ("Each case = one (scenario, role under attack, cut point after the k-th record delivered to it, injection) executed on a fork()ed clone of the live "
-            "connection: plaintext/random/foreign-connection/reflected application_data records, TLS 1.3 records sealed under the peer's handshake key, and "
-            "application encode attempts before completion; afterwards the honest handshake and honest tagged traffic continue. distinct_nontrivial counts "
-            "distinct (version, scenario, role, cut point, handshake state, injection) tuples whose injection was actually delivered to a live target.")
+               shards=vflib.NCPU, timeout=7200 if ctx.thorough else 1200),
+          # the keyless-PSK grid once more without sanitizers: a sanitizer abort inside the victim must not be the only thing between a
+          # keyless peer and a completed handshake (and the default-flags build is what is deployed)
+          dict(variant="prod", name="c01p", sources=["checks/c01_appdata.c", "harness/mx_wraps.c"], wraps=WRAPS, libs=["-lcrypto"],
+               shards=vflib.NCPU, args=["--part", "psk", "--psk-full"], timeout=1200)]
+    rule = ("Part 1: each case = one (scenario, role under attack, cut point after the k-th record delivered to it, injection) executed on a fork()ed clone of the live "
+            "connection: plaintext/random/foreign-connection/reflected application_data records, forged PLAINTEXT HANDSHAKE records with every message type a peer "
+            "without keys can write (hello_request, client_hello, server_hello, hello_verify_request, new_session_ticket, end_of_early_data, encrypted_extensions, "
+            "empty certificate, server_key_exchange, certificate_request, server_hello_done, certificate_verify, client_key_exchange, finished with random "
+            "verify_data, key_update, [CCS][finished]; DTLS with the expected message and record sequence numbers), TLS 1.3 records sealed under the peer's "
+            "handshake key, records the unverified peer seals before its Finished, and application encode attempts before completion. After every keyless "
+            "injection into an incomplete handshake both directions of the API are probed at once (no completion reported by matrixSslHandshakeIsComplete or a "
+            "MATRIXSSL_HANDSHAKE_COMPLETE return, also after the answer was flushed; matrixSslEncodeToOutdata still refused); then the honest handshake and honest "
+            "tagged traffic continue and every delivery is checked for completion and provenance. "
+            "Part 2 (keyless RFC 4279 peers): a MatrixSSL endpoint holding none of the victim's pre-shared keys - unknown identities of 1/15/16/128 octets, "
+            "15-octet prefix / 17-octet extension of a known identity, known identities of 16 and 128 octets x key := empty (length 0 forced in the attacker's own "
+            "store), all-zero (1/16/64 octets), known key with one bit flipped, random - against a server with a three-entry PSK table and, mirrored, as a server "
+            "against a PSK client; TLS 1.1/1.2, DTLS 1.0/1.2, all four TLS_PSK_WITH_AES suites, extended master secret on/off; the victim must never report "
+            "completion, deliver, or accept data for sending; right identity + right key is the control of every cell. The sanitizer build runs a sub-grid in the "
+            "quick tier, the stage built with the repository's default flags runs the full grid in both tiers. "
+            "distinct_nontrivial counts distinct (version, scenario, role, cut point, handshake state, injection) tuples whose injection was actually delivered to a "
+            "live target, plus distinct (version, suite, EMS, victim role, identity class, key class) keyless-PSK cells in which the victim got as far as the key check.")
     return vflib.std_run(ctx, st, "exploration", rule,
         ["sample credentials under /repo/testkeys", "attacker strength 2 reads traffic keys from the honest peer's ssl_t (libcrypto seals the record)",
-         "rehandshake states are compiled out of the default configuration"], min_nontrivial=200)
+         "rehandshake states and DHE_PSK suites are compiled out of the default configuration",
+         "the keyless PSK peer is this library driven with a key store edited through the internal header (an attacker runs whatever code it likes); the victim is driven through the public API only"], min_nontrivial=200)
